@@ -88,17 +88,20 @@ impl ScriptStack for Vec<Vec<u8>> {
     fn pop_bool(&mut self) -> Result<bool, InterpreterError> {
         let data = self.pop().ok_or(InterpreterError::EmptyStack)?;
 
-        if data.len() > 4 {
-            return Err(InterpreterError::TooLongForBool);
+        // Any non-zero byte makes the item true, except the sign bit of the last byte on its own (negative zero).
+        // Items of any length can be tested.
+        for (i, byte) in data.iter().enumerate() {
+            if *byte != 0 {
+                return Ok(!(i == data.len() - 1 && *byte == 0x80));
+            }
         }
-
-        Ok(BigInt::from_signed_bytes_le(&data) >= BigInt::from_slice(num_bigint::Sign::Plus, &[1]))
+        Ok(false)
     }
 
     fn push_bool(&mut self, boolean: bool) -> Result<(), InterpreterError> {
         let data = match boolean {
             true => vec![1],
-            false => vec![0],
+            false => vec![],
         };
 
         self.push(data);
